@@ -62,7 +62,8 @@ def run_case(case, built=None, keep_obs=False):
     prog = case['prog']
     own = built is None
     if own:
-        built = harness.Built(prog, events=case.get('events', True), store=case.get('store', False))
+        built = harness.Built(prog, events=case.get('events', True), store=case.get('store', False),
+                              events2=case.get('events2', False))
     if built.build_error is not None:
         if own:
             built.close()
@@ -71,6 +72,7 @@ def run_case(case, built=None, keep_obs=False):
     # unnamed switches get uuid-suffixed ids: make them a function of the program so that replays are exact
     harness.reseed_uuid(int(materialize.prog_hash(prog)[:8], 16))
     if not own or case.get('fresh', True):
+        built.events2 = case.get('events2', getattr(built, 'events2', False))
         built.fresh(events=case.get('events', True), store=case.get('store', False))
     ctl = ctl_from(case.get('ctl'))
     harness.COUNTERS['dup_request'] = 0
@@ -133,6 +135,7 @@ def run_case(case, built=None, keep_obs=False):
             stats['retry_gaps'] += ngap
             if case.get('events', True):
                 findings += monitors.check_events(obs, ro, ref, prog, cancelled=was_cancelled)
+                findings += monitors.check_second_manager(obs, ro, cancelled=was_cancelled)
             if case.get('store') and not was_cancelled:
                 findings += monitors.check_saves(obs, ro, ref, prog)
         if faults and not was_cancelled and case.get('events', True) \
